@@ -26,6 +26,9 @@ Inductive nvariant := NFixed | NOrig.
    (vdip->vdi_fprecision = v, vdip->vdi_dprecision = v) *)
 Inductive ndop := NCall (o : dop) | NFprec (v : Z) | NDprec (v : Z).
 
+(* what the container invariant asks of a stored precision *)
+Definition prec_ok (o : ndop) : bool := match o with NCall _ => true | NFprec v | NDprec v => 1 <=? v end.
+
 Record nmem := mkN {
   n_text : option block_id; n_tarr : carray N; n_size : nat;      (* nss_text, nss_text_size *)
   n_fld : option block_id; n_farr : carray Z; n_count : nat;      (* nss_fields, nss_field_count *)
@@ -220,8 +223,8 @@ Definition header_events (k : nkey) (fields : list (list N)) : list ndop :=
                     | [_; a] => match set_format a with Some _ => [NCall DFormat] | None => [] end
                     | _ => []
                     end
-  | NKFprecision => match nnint fields with Some z => if 1000 <? z then [] else [NFprec z] | None => [] end
-  | NKDprecision => match nnint fields with Some z => if 1000 <? z then [] else [NDprec z] | None => [] end
+  | NKFprecision => match nnint fields with Some z => if (z <? 1) || (1000 <? z) then [] else [NFprec z] | None => [] end
+  | NKDprecision => match nnint fields with Some z => if (z <? 1) || (1000 <? z) then [] else [NDprec z] | None => [] end
   | _ => []
   end.
 (* "Set-up the output matrix": vnadata_init, then the '#:z0' vector *)
